@@ -15,12 +15,13 @@ def run(chk, tier):
                 'the documented (count, exactness) pair; K6: the call index is the pre-increment fetch_add value, unchanged; the segment '
                 'lookup is matched against the normal form "greatest start <= k" (binary_search_by / partition_point idioms, fail-closed); '
                 'K3: eval::eval maps each responder kind to its outcome and an exhausted single-use value to an error.')
-    for cfg in configs(tier, thorough=('std', 'nostd-spin')):
+    for cfg in configs(tier, thorough=('std', 'mocks', 'nostd-spin', 'nostd')):
         F = load(chk, cfg)
         B.quantify_arith(chk, F, 'R02.1', cfg)
         B.api_table(chk, F, 'R02.2', cfg)
         from props import ctor
         ctor.builder_constructors(chk, F, 'R02.0', cfg)
+        B.conversion_table(chk, F, 'R02.7', cfg)
         position_is_rmw(chk, F, 'R02.3', cfg)
         segment_lookup(chk, F, 'R02.4', cfg)
         E.eval_table(chk, F, 'R02.5', cfg)
